@@ -372,7 +372,14 @@ let c17 (h : shist) : string list =
 
 let monitor pid h =
   match pid with
-  | "C04" -> c04 h | "C06" -> c06 h | "C07" -> c07 h | "C09" -> c09 h | "C17" -> c17 h
+  | "C04" ->
+      (* counted without a lease: the published capacity exceeds what the partitions with a current allocation are worth
+         (the over-count half of the capacity rule of C06) *)
+      c04 h @ List.filter_map (fun s ->
+          try Scanf.sscanf s "c06:capacity inst=%d t=%d Capacity()=%d but reserved %d + factor %d x %d counted partitions = %d"
+                (fun k t cap _ _ n expect -> if cap > expect then Some (Printf.sprintf "c04:counted-without-lease inst=%d t=%d Capacity()=%d exceeds the reserve plus the %d partitions that are allocated and not released (%d)" k t cap n expect) else None)
+          with _ -> None) (c06 h)
+  | "C06" -> c06 h | "C07" -> c07 h | "C09" -> c09 h | "C17" -> c17 h
   | _ -> []
 
 let stats (h : shist) : string =
